@@ -575,6 +575,10 @@ let check_tokens (cfg : econfig) (ops : eop list) (tr : tok list) : unit =
        simulation — it waits on something that is not under the context its role scheduler handed out (API=-6) *)
     (if List.exists (function TApi z -> zi z = -6 | _ -> false) seg then
        bad prop "a background process went silent without terminating: it is blocked on something that is not under the context handed out by its role scheduler (a lost role would not stop it)");
+    (* every property of the engine: a process that asks again for a role it never handed back (API=-8) waits for itself for ever —
+       it "re-acquires its role" no more, its events are never handled again, runs behind it are stranded *)
+    (if List.exists (function TApi z -> zi z = -8 | _ -> false) seg then
+       bad prop "a background process asked again for the role it still holds: the role context of its previous attempt was never cancelled, so with a real role scheduler it now waits for itself for ever");
     (* C11: a background process never terminates while the workflow is running *)
     (if on "C11" || on "C07" || on "C01" then
        match unit_of_op with
@@ -836,6 +840,25 @@ let check_tokens (cfg : econfig) (ops : eop list) (tr : tok list) : unit =
         bad "C15" "run %d: an accepted DeleteData request never reached DataDeleted although nothing is pending" (ni run)
       | _ -> ()) runs
   end
+
+(* engx: scenarios OUTSIDE the model's script language (no model run, nothing to compare with): the token-local clauses of the token
+   theorem (the extracted tok_ok: store_ok on every Store, user_ok on every invocation) are evaluated on the implementation's tokens *)
+let check_local (a : ostring list) (obs : ostring list) : ostring option =
+  let rec split_case acc = function "--" :: r -> (List.rev acc, r) | x :: r -> split_case (x :: acc) r | [] -> (List.rev acc, []) in
+  let (items, _) = split_case [] a in
+  try
+    let cfg = Engparse.parse_cfg items in
+    let g = ec_graph cfg in
+    List.iter (fun t ->
+      if not (tok_ok g t) then
+        (match t with
+         | TStore (Some p, r, _) -> bad prop "run %d: the Store of version %d (state %d, status %d) over the persisted version %d (state %d, status %d) violates the token clause store_ok (identity, version + 1, lifecycle, declared transition, object)" (ni r.r_run) (zi r.r_ver) (zi (rs_code r.r_state)) (zi r.r_status) (zi p.r_ver) (zi (rs_code p.r_state)) (zi p.r_status)
+         | TStore (None, r, _) -> bad prop "run %d: first write violates the token clause store_ok" (ni r.r_run)
+         | _ -> bad prop "an invocation violates the token clause user_ok (not the persisted version / object, or a stopped run)")) (List.map parse_tok obs);
+    None
+  with
+  | Bad (p, r) -> Some (Printf.sprintf "[%s] %s" p r)
+  | Failure e -> Some ("[parse] " ^ e)
 
 let check (a : ostring list) (obs : ostring list) : ostring option =
   let rec split_case acc = function "--" :: r -> (List.rev acc, r) | x :: r -> split_case (x :: acc) r | [] -> (List.rev acc, []) in
